@@ -63,8 +63,9 @@ A peer on the newer spec `B` serialises a valid value `v` of type `tB`; a peer o
 mode `evolve_spec.rst` prescribes for receivers) accepts the message and builds the A-view of `canon B tB v` — the value
 B's own decoder returns for the message, equal to `v` under Python `==` (C04: `decode_wire`, `round_trip`).
 Hypotheses: those of `forward_compat_msg` on the pair of specs, and those of C04's round-trip theorem on the sender's side
-(`envRT B`, `ExtLaws E B`, `tyWF B tB`, `validB`, `normalB`, `valWF`, not `ambiguousEmpty`) — all decidable and evaluated
-on real data by the harness, except `ExtLaws`. -/
+(`envRT B`, `ExtLaws E B`, `tyWF B tB`, `validB`, `normalB`, `valWF`, not `ambiguousEmpty`).  All but `ExtLaws` are
+decidable; the harness evaluates the first group on every generated pair (`compat.hyp`, `compat.sub`, `compat.wire`) and
+the C04 group on real data in C04's own suite (`rt.*`), not on the pairs of the compat suite. -/
 theorem forward_compat (E : Ext) {ρ : Rho} {A B : Env} {tA tB : PTy} (hs : subB ρ A B tA tB = true)
     (hA : envWF A = true) (hB : envWF B = true) (hxA : envWFX A = true) (huB : envWFU B = true)
     (hw : tyWF A tA = true) (hrtB : envRT B = true) (hE : ExtLaws E B) (v : PyVal)
@@ -163,7 +164,8 @@ in `A` and has a non-nullable type in `B` (`noVoidToRequired`: the one direction
 newer spec `B` — strict or lenient — accepts the message and builds `canon A tA v` (what A's own decoder returns for it,
 equal to `v` under Python `==`: C04) seen under `B`: same slots, instances of B's classes, the new fields unset.
 Hypotheses: those of `backward_compat_msg` on the pair of specs, those of C04's round-trip theorem on the sender's side,
-and `noVoidToRequired`; all decidable and evaluated on real data by the harness, except `ExtLaws`. -/
+and `noVoidToRequired` (`compat.nvr` compares it with the same predicate computed from the IR in Python); decidable and
+evaluated on real data as said at `forward_compat`, except `ExtLaws`. -/
 theorem backward_compat (E : Ext) {ρ : Rho} {A B : Env} {tA tB : PTy} (hs : subB ρ A B tA tB = true)
     (hA : envWF A = true) (hB : envWF B = true) (hxA : envWFX A = true) (huB : envWFU B = true)
     (hrtA : envRT A = true) (hE : ExtLaws E A) (v : PyVal)
